@@ -18,13 +18,13 @@ type BankEffect struct {
 }
 
 var bankOps = map[string]string{
-	"SendCoins":                     "Send",
-	"SendCoinsFromAccountToModule":  "AccToMod",
-	"SendCoinsFromModuleToAccount":  "ModToAcc",
-	"SendCoinsFromModuleToModule":   "ModToMod",
-	"MintCoins":                     "Mint",
-	"BurnCoins":                     "Burn",
-	"InputOutputCoins":              "InputOutput",
+	"SendCoins":                          "Send",
+	"SendCoinsFromAccountToModule":       "AccToMod",
+	"SendCoinsFromModuleToAccount":       "ModToAcc",
+	"SendCoinsFromModuleToModule":        "ModToMod",
+	"MintCoins":                          "Mint",
+	"BurnCoins":                          "Burn",
+	"InputOutputCoins":                   "InputOutput",
 	"DelegateCoinsFromAccountToModule":   "AccToMod",
 	"UndelegateCoinsFromModuleToAccount": "ModToAcc",
 }
